@@ -113,6 +113,48 @@ def batch_worker(kp, job):
     return {'records': [engine.rec('batch', viol=viol, kind='batch', key=('batch', idx, n))]}
 
 
+def multi_worker(kp, job):
+    """signifiers of more than one character - among them the editorial mark y@, whose own text holds the token separator -
+    on notes, rests and chords: outside the scanner model, so the three relations are checked between kernpy's own six
+    exports (plain = extended minus separators; basic = extended with every note cut at its first signifier)"""
+    seed, idx = job
+    rng = random.Random(seed * 295075147 + idx)
+    records = []
+    for it in range(30):
+        pool = ['y@', 'yy@', 'y', '&(', '&)', 'Ww', '(', ')', 'L', 'J', "'", ';', '^', '~', '_', '{', '}', ':', 'O']
+
+        def note():
+            ds = ''.join(rng.sample(pool, rng.randint(1, 3)))
+            body = rng.choice(['4', '8.', '16', '2']) + rng.choice(['c', 'dd', 'E', 'f#', 'b-', 'GG', 'r'])
+            return body + ds
+        cell = note() if rng.random() < 0.6 else ' '.join(note() for _ in range(rng.randint(2, 3)))
+        if it % 6 == 0:
+            cell = rng.choice(['4fy@', '8g#Ly@', '4ryy@', '2c(y@ 2e(y@', "16ee-'y@", '4c;yy@'])
+        text = f'**kern\n*clefG2\n{cell}\n*-\n'
+        try:
+            doc, errs = kp.loads(text)
+        except Exception:
+            continue
+        if errs:
+            continue
+        outs = {}
+        for enc in optprops.ENCODINGS:
+            r = docs.impl_dumps(kp, doc, encoding=enc)
+            outs[enc] = r[3:].split('\n')[2] if r.startswith('ok:') and len(r.split('\n')) > 2 else r
+        viol = []
+        w = {'text': text}
+        for plain, ext in (('kern', 'ekern'), ('akern', 'aekern')):
+            if outs[plain] != optprops.strip_sep(outs[ext]):
+                viol.append(('plain-of-extended', f'multi-character signifiers: {plain} {outs[plain]!r} is not {ext} {outs[ext]!r} without separators', w))
+        if outs['bkern'] != outs['bekern'].replace('@', ''):
+            viol.append(('plain-of-extended', f'multi-character signifiers: bkern {outs["bkern"]!r} is not bekern {outs["bekern"]!r} without separators', w))
+        want = ' '.join(n.split('\u00b7')[0] for n in outs['ekern'].split(' '))
+        if outs['bekern'] != want:
+            viol.append(('basic-of-full', f'multi-character signifiers: bekern {outs["bekern"]!r} is not the ekern cell {outs["ekern"]!r} with every note cut at its first signifier', w))
+        records.append(engine.rec('multi', viol=viol[:2], kind='multi-char-signifiers', key=('multi', cell)))
+    return {'records': records}
+
+
 def options_worker(kp, job):
     """ONE ExportOptions object whose category selection is the caller's own container (a set, a list, a frozenset, the
     module's BEKERN_CATEGORIES) and ONE Exporter serve the six encodings of a document in random order, twice: every
@@ -161,10 +203,11 @@ def run(chk):
     n = core.budget(chk, full, 60, 500)
     chk.rule = ('generated documents (a clef in force for every note, accidentals up to two sharps / flats so that the agnostic '
                 'encodings are defined) x 3 category selections that keep durations or pitches x the six encodings; batch '
-                'sessions of 120 small documents of 8 spine layouts loaded, exported and dropped in one process (header rows); one ExportOptions object holding the caller-owned category container serving the six encodings in random order; '
+                'sessions of 120 small documents of 8 spine layouts loaded, exported and dropped in one process (header rows); notes with signifiers of several characters (y@ yy@ &( Ww ...) on kernpy alone; one ExportOptions object holding the caller-owned category container serving the six encodings in random order; '
                 'non-trivial = distinct (text, options)')
     results = engine.pmap(worker, [(chk.seed, i) for i in range(n)])
     results += engine.pmap(batch_worker, [(chk.seed, i) for i in range(core.budget(chk, full, 16, 64))])
+    results += engine.pmap(multi_worker, [(chk.seed, i) for i in range(core.budget(chk, full, 12, 120))])
     results += engine.pmap(options_worker, [(chk.seed, i) for i in range(core.budget(chk, full, 16, 96))])
     engine.settle(chk, results, model)
     chk.disagreements_checked = len(chk.broken)
